@@ -122,6 +122,45 @@ class _Canon(ast.NodeTransformer):
         return n
 
 
+_ORDER_OPAQUE = (ast.ListComp, ast.SetComp, ast.DictComp, ast.GeneratorExp, ast.Lambda, ast.IfExp, ast.BoolOp, ast.Dict, ast.NamedExpr, ast.Await, ast.Yield, ast.YieldFrom, ast.JoinedStr)
+_ORDER_TRIVIAL = (ast.Name, ast.Constant, ast.Attribute, ast.Tuple, ast.List, ast.Starred, ast.keyword, ast.expr_context, ast.operator, ast.unaryop, ast.cmpop, ast.boolop, ast.Slice)
+
+
+def _load_is_first_effect(stmt: ast.stmt, name: str) -> bool:
+    """Is the (single) load of `name` in the simple statement `stmt` evaluated before anything that could have an effect?  Then `name = E; stmt` and stmt[E/name] evaluate the
+    same things in the same order.  Field order of the ast is evaluation order for the node kinds let through; anything else makes the answer False."""
+    if not isinstance(stmt, (ast.Assign, ast.Return, ast.Expr, ast.AugAssign)) or stmt.value is None:
+        return False
+    if any(isinstance(n, _ORDER_OPAQUE) for n in ast.walk(stmt.value)):
+        return False
+    state = {"first": None}
+
+    def post(n):
+        if state["first"] is not None:
+            return
+        if isinstance(n, ast.Name):
+            if n.id == name:
+                state["first"] = "load"
+            return
+        for c in ast.iter_child_nodes(n):
+            post(c)
+            if state["first"] is not None:
+                return
+        if not isinstance(n, _ORDER_TRIVIAL):
+            state["first"] = "effect"
+
+    post(stmt.value)
+    return state["first"] == "load"
+
+
+class _Subst(ast.NodeTransformer):
+    def __init__(self, name, value):
+        self.name, self.value = name, value
+
+    def visit_Name(self, n):
+        return self.value if n.id == self.name and isinstance(n.ctx, ast.Load) else n
+
+
 def _inline_result_temps(fn: ast.AST) -> None:
     """`v = E; return v` (v bound once, used once) is `return E`; `if not c: B else: A` is `if c: A else: B`."""
     stores = {}
@@ -142,6 +181,11 @@ def _inline_result_temps(fn: ast.AST) -> None:
                         and b.value.id == a.targets[0].id and stores.get(b.value.id) == 1 and loads.get(b.value.id) == 1):
                     block[i:i + 2] = [ast.Return(value=a.value)]
                     continue
+                if (isinstance(a, ast.Assign) and len(a.targets) == 1 and isinstance(a.targets[0], ast.Name) and stores.get(a.targets[0].id) == 1 and loads.get(a.targets[0].id) == 1
+                        and not any(isinstance(x, ast.NamedExpr) for x in ast.walk(a.value)) and _load_is_first_effect(b, a.targets[0].id)):
+                    b.value = _Subst(a.targets[0].id, a.value).visit(b.value)
+                    del block[i]
+                    continue
                 i += 1
         if isinstance(node, ast.If) and node.orelse and isinstance(node.test, ast.UnaryOp) and isinstance(node.test.op, ast.Not) and not (len(node.orelse) == 1 and isinstance(node.orelse[0], ast.If)):
             node.test = node.test.operand
@@ -151,6 +195,8 @@ def _inline_result_temps(fn: ast.AST) -> None:
 def canonical(fn: ast.AST) -> str:
     f2 = copy.deepcopy(_detached(fn))
     _inline_result_temps(f2)
+    ast.fix_missing_locations(f2)
+    f2 = _detached(f2)  # positions as printed: binding order must not depend on where an inlined expression came from
     names = _bound_names(f2)
     mapping = {nm: f"_v{i}" for i, nm in enumerate(names)}
     f2 = _Canon(mapping).visit(f2)
